@@ -22,3 +22,6 @@ def run(ctx):
     fr.r_tree_count(ctx)
     fr.r_stale(ctx)
     fr.r_kind(ctx)
+    # the bucket capacity and tree count are statements about the forest the build leaves: C01 / C06 premises re-evaluated
+    import premises
+    premises.forest(ctx)
